@@ -48,7 +48,7 @@ def build_case(env, topo, n_int=3, unit=True, prefix="u", **build_kw):
     return c
 
 
-def solve(c, velocity=None, build_kw=None, **solve_kw):
+def solve(c, velocity=None, build_kw=None, pre_build_kw=None, **solve_kw):
     """run the real build_force_matrix + solve_stress; returns (exception|None, list of warning messages)."""
     F = c.F
     if velocity is not None:
@@ -57,6 +57,9 @@ def solve(c, velocity=None, build_kw=None, **solve_kw):
     with warnings.catch_warnings(record=True) as w:
         warnings.simplefilter("always")
         try:
+            if pre_build_kw is not None:
+                # an earlier build with other options on the same object must not influence the next one
+                F.build_force_matrix(when=0, **pre_build_kw)
             F.build_force_matrix(when=0, **(build_kw or {}))
             c.fm = F.force_matrices[0]
             c.cols = [tissue.line_of_big_edge(c.built, e)[0] for e in c.fm.big_edges_to_use]
